@@ -25,6 +25,9 @@ type RoutineContainer struct {
 	ctx context.Context
 	// routine is the current running routine, if any
 	routine *runningRoutine
+	// detachedCh is the exit channel of a routine that was removed without a
+	// replacement while it was still exiting: the next routine waits for it.
+	detachedCh <-chan struct{}
 	// retryBo is the retry backoff if retrying is enabled.
 	retryBo cbackoff.BackOff
 }
@@ -171,15 +174,28 @@ func (k *RoutineContainer) setRoutineLocked(routine Routine, broadcast func()) (
 		k.routine = nil
 	}
 
+	// waitCh is closed once all earlier routines have returned
+	waitCh := prevExitedCh
+	if waitCh == nil {
+		waitCh = k.detachedCh
+	}
+	k.detachedCh = nil
+
 	if routine != nil {
 		r := newRunningRoutine(k, routine)
 		k.routine = r
 		if k.ctx != nil {
-			k.routine.start(k.ctx, prevExitedCh, false)
+			k.routine.start(k.ctx, waitCh, false)
+		} else {
+			// started later by SetContext: must still wait for the old routine
+			r.exitedCh = waitCh
 		}
 		broadcast()
-	} else if wasReset {
-		broadcast()
+	} else {
+		k.detachedCh = waitCh
+		if wasReset {
+			broadcast()
+		}
 	}
 
 	return prevExitedCh, wasReset
